@@ -634,6 +634,12 @@ func (c *Connection) connectionError(site string, err error) error {
 
 	// checkExchanges will close the connection due to stoppedExchanges.
 	c.checkExchanges()
+
+	// The writer closes the socket once it notices that the connection is closed,
+	// but it may be blocked in a write that never completes (the peer has stopped
+	// reading too). Nothing more can be sent on a failed connection: close the
+	// socket here, which also releases a writer stuck in that write.
+	c.closeNetwork()
 	return err
 }
 
@@ -973,7 +979,10 @@ func (c *Connection) closeNetwork() {
 	// channel would be dangerous since other goroutine might be sending)
 	c.log.Debugf("Closing underlying network connection")
 	c.stopHealthCheck()
-	c.closeNetworkCalled.Store(true)
+	if c.closeNetworkCalled.Swap(true) {
+		// Already closed (by the writer, or on a connection error).
+		return
+	}
 	if err := c.conn.Close(); err != nil {
 		c.log.WithFields(
 			LogField{"remotePeer", c.remotePeerInfo},
